@@ -32,6 +32,7 @@ Ltac step_cases Hs :=
 (* ---------- from the steps of the instrumented kind (tstep0) to the steps of both kinds (tstep) ---------- *)
 (* A step of the plain kind is a tstep0 step followed by tstep0 steps of the same thread (settle), so whatever
    tstep0 preserves, tstep preserves; enabledness is that of tstep0. *)
+Global Opaque SETTLE_FUEL.
 Lemma upd_same {A} (l : list A) i x : nth_error l i = Some x -> upd l i x = l.
 Proof. revert i; induction l as [|a r IH]; intros [|i] H; cbn in *; try discriminate; [inversion H; reflexivity|f_equal; auto]. Qed.
 Lemma upd_upd {A} (l : list A) i x y : upd (upd l i x) i y = upd l i y.
@@ -56,7 +57,7 @@ Lemma tstep_inv cf t c g l r : tstep cf t c g l = Some r ->
     (plain cf = true -> r = settle cf t SETTLE_FUEL g1 l1 es1).
 Proof.
   unfold tstep. destruct (tstep0 cf t c g l) as [[[g1 l1] es1]|]; [|discriminate]. intros H.
-  exists g1, l1, es1. split; [reflexivity|]. destruct (plain cf) eqn:Ep; inversion H; subst; split.
+  exists g1, l1, es1. split; [reflexivity|]. destruct (plain cf) eqn:Ep; injection H as <-; split.
   - intros [E|E]; [discriminate|]. apply settle_stop. exact E.
   - reflexivity.
   - reflexivity.
@@ -86,7 +87,7 @@ Section Lift.
     destruct (tstep0 cf t c g l) as [[[g1 l1] es1]|] eqn:E; [|discriminate].
     pose proof (P_step0 _ _ _ _ _ _ _ _ HP Hl E) as HP1.
     destruct (plain cf); [|inversion Hs; subst; exact HP1].
-    inversion Hs as [Hs']. assert (nth_error (upd ls t l1) t = Some l1) as Hl1 by (eapply nth_upd_eq; eauto).
+    injection Hs as Hs'. assert (nth_error (upd ls t l1) t = Some l1) as Hl1 by (eapply nth_upd_eq; eauto).
     pose proof (settle_inv _ _ _ _ _ _ _ _ _ HP1 Hl1 Hs') as H2. rewrite upd_upd in H2. exact H2.
   Qed.
 End Lift.
@@ -454,7 +455,7 @@ Proof.
 Qed.
 
 Lemma R_inv1 cf progs s : R cf progs s -> Inv1 cf (gl s) (thr s).
-Proof. intros H. eapply reachable_inv; [apply Inv1_step|apply Inv1_init|exact H]. Qed.
+Proof. intros H. eapply reachable_inv; [apply (lift_step cf _ (Inv1_step cf))|apply Inv1_init|exact H]. Qed.
 
 (* ---------- C01: whoever holds the lock exclusively is alone ---------- *)
 Lemma own1_le g u : (own1 g u <= 1)%nat.
@@ -487,8 +488,9 @@ Definition wropen (p : pc) : bool :=
   | Run _ (MIncr :: _) (S (S (S _))) _ _ => true
   | _ => false
   end.
+(* instructions a thread may execute while it holds the mutex only in shared mode *)
 Definition ro_mi (i : mi) : bool :=
-  match i with MCall _ _ | MRead | MWrite (Priv _) _ => true | _ => false end.
+  match i with MCall _ _ | MRead => true | _ => false end.
 Definition nowrite (code : list mi) : bool := forallb ro_mi code.
 Definition safe (cf : config) (g : glob) : Prop := locking cf = true /\ misuse g = 0%nat.
 Definition covered (cf : config) (l : loc) : Prop :=
@@ -627,7 +629,7 @@ Qed.
 
 Lemma wop_shared_nowrite cf o code : wop_code cf o = Some (true, code) -> nowrite code = true.
 Proof.
-  unfold wop_code. destruct o; try discriminate; destruct (flav cf); cbn; intros H; inversion H; reflexivity.
+  unfold wop_code. destruct o; try discriminate; destruct (flav cf); destruct (plain cf); cbn; intros H; inversion H; reflexivity.
 Qed.
 Lemma nowrite_tail i rest : nowrite (i :: rest) = true -> nowrite rest = true.
 Proof. cbn. intros H. apply andb_true_iff in H. tauto. Qed.
@@ -839,7 +841,7 @@ Lemma Inv_step cf : forall g ls t c l g' l' es,
 Proof. intros g ls t c l g' l' es [H1 H2] Hl Hs. split; [eapply Inv1_step|eapply Inv2_step]; eauto. Qed.
 Lemma R_inv cf progs s : R cf progs s -> Inv cf (gl s) (thr s).
 Proof.
-  intros H. eapply reachable_inv; [apply Inv_step| |exact H]. split; [apply Inv1_init|apply Inv2_init].
+  intros H. eapply reachable_inv; [apply (lift_step cf _ (Inv_step cf))| |exact H]. split; [apply Inv1_init|apply Inv2_init].
 Qed.
 
 (* ---------- C01 ---------- *)
@@ -1007,8 +1009,10 @@ Proof.
   assert (Hshape : forall u lu, nth_error (thr s) u = Some lu ->
             fin lu = true \/ exists sm, blocked_on cf lu sm /\ obtainable sm (gl s) = false).
   { intros u lu Hu. apply (disabled_shape cf u (gl s) lu (I_ok _ _ _ H1 _ _ Hu)).
-    - destruct (tstep0 cf u 0 (gl s) lu) as [r|] eqn:E; [|reflexivity]. exfalso. apply (HQ u 0%nat); [lia|]. exists lu, r. auto.
-    - destruct (tstep0 cf u 2 (gl s) lu) as [r|] eqn:E; [|reflexivity]. exfalso. apply (HQ u 2%nat); [lia|]. exists lu, r. auto. }
+    - destruct (tstep0 cf u 0 (gl s) lu) as [r|] eqn:E; [|reflexivity]. exfalso. apply (HQ u 0%nat); [lia|].
+      destruct (tstep_some _ _ _ _ _ _ E) as [r' E']. exists lu, r'. auto.
+    - destruct (tstep0 cf u 2 (gl s) lu) as [r|] eqn:E; [|reflexivity]. exfalso. apply (HQ u 2%nat); [lia|].
+      destruct (tstep_some _ _ _ _ _ _ E) as [r' E']. exists lu, r'. auto. }
   destruct (Hshape t l Hl) as [Hf|[sm [Hb Ho]]]; [left; exact Hf|right].
   split; [exists sm; exact Hb|].
   (* somebody holds the mutex *)
@@ -1042,7 +1046,7 @@ Lemma holder_in_op_enabled_l cf progs s a la c : R cf progs s -> nth_error (thr 
   (1 <= pcx cf (at_ la) + pcs cf (at_ la))%nat -> enabledW cf s a c.
 Proof.
   intros HR Ha Hp. destruct (R_inv _ _ _ HR) as [H1 _]. destruct (I_ok _ _ _ H1 _ _ Ha) as [Hlen Hpc].
-  assert (exists r, tstep0 cf a c (gl s) la = Some r) as [r Hr]; [|exists la, r; auto].
+  assert (exists r, tstep0 cf a c (gl s) la = Some r) as [r Hr]; [|destruct (tstep_some _ _ _ _ _ _ Hr) as [r' Hr']; exists la, r'; auto].
   destruct la as [pr p sl]. cbn [at_ slots] in *. unfold tstep0. cbn [at_ slots prog].
   destruct p; cbn in Hp; try lia.
   - destruct Hpc as [old [Ho _]]. rewrite Ho. destruct (release _ _ _ _). eexists; reflexivity.
@@ -1186,8 +1190,9 @@ Lemma R_inv3 cf progs s : R cf progs s -> Inv3 (gl s) (thr s).
 Proof.
   intros H.
   assert (Inv1 cf (gl s) (thr s) /\ Inv3 (gl s) (thr s)) as [_ H3]; [|exact H3].
-  refine (reachable_inv glob loc (tstep0 cf) (fun g ls => Inv1 cf g ls /\ Inv3 g ls) _ _ _ _ H).
-  - intros g ls t c l g' l' es [H1 H3] Hl Hs. split; [eapply Inv1_step|eapply Inv3_step]; eauto.
+  refine (reachable_inv glob loc (tstep cf) (fun g ls => Inv1 cf g ls /\ Inv3 g ls) _ _ _ _ H).
+  - apply (lift_step cf (fun g ls => Inv1 cf g ls /\ Inv3 g ls)).
+    intros g ls t c l g' l' es [H1 H3] Hl Hs. split; [eapply Inv1_step|eapply Inv3_step]; eauto.
   - split; [apply Inv1_init|apply Inv3_init].
 Qed.
 
@@ -1222,10 +1227,10 @@ Proof.
 Qed.
 (* the handles of a thread are changed only by that thread's own steps *)
 Lemma other_steps_keep_handles (cf : config) (s : sysW) t u c : u <> t ->
-  nth_error (thr (step glob loc (tstep0 cf) s (u, c))) t = nth_error (thr s) t.
+  nth_error (thr (step glob loc (tstep cf) s (u, c))) t = nth_error (thr s) t.
 Proof.
   intros Hne. unfold step, sys_step. destruct (nth_error (thr s) u) as [l|]; [|reflexivity].
-  destruct (tstep0 cf u c (gl s) l) as [[[g' l'] es]|]; [|reflexivity]. cbn. apply nth_upd_ne. exact Hne.
+  destruct (tstep cf u c (gl s) l) as [[[g' l'] es]|]; [|reflexivity]. cbn. apply nth_upd_ne. exact Hne.
 Qed.
 
 (* try / timed / blocking acquisition with locking enabled: the handle is non-null exactly when its lock
@@ -1333,9 +1338,10 @@ Lemma disabled_never_locks_l cf progs s t l : R cf progs s -> locking cf = false
 Proof.
   intros HR Hlk Hl.
   assert (HI : Inv1 cf (gl s) (thr s) /\ forall u lu, nth_error (thr s) u = Some lu -> noown (slots lu)).
-  { refine (reachable_inv glob loc (tstep0 cf)
+  { refine (reachable_inv glob loc (tstep cf)
               (fun g ls => Inv1 cf g ls /\ forall u lu, nth_error ls u = Some lu -> noown (slots lu)) _ _ _ _ HR).
-    - intros g ls t0 c l0 g' l' es [H1 Hn] Hl0 Hs. split; [eapply Inv1_step; eauto|].
+    - apply (lift_step cf (fun g ls => Inv1 cf g ls /\ forall u lu, nth_error ls u = Some lu -> noown (slots lu))).
+      intros g ls t0 c l0 g' l' es [H1 Hn] Hl0 Hs. split; [eapply Inv1_step; eauto|].
       intros u lu Hu. destruct (nth_upd _ _ _ _ _ Hu) as [[-> [-> _]]|[_ Hu']]; [|eauto].
       eapply noown_step; eauto. eapply I_ok; eauto.
     - split; [apply Inv1_init|]. intros u lu. apply noown_init. }
@@ -1602,9 +1608,10 @@ Lemma R_wfl cf progs s : wf_progs cf progs = true -> R cf progs s ->
 Proof.
   intros Hwf HR.
   assert (HI : Inv1 cf (gl s) (thr s) /\ forall u lu, nth_error (thr s) u = Some lu -> wfl cf lu); [|apply HI].
-  refine (reachable_inv glob loc (tstep0 cf)
+  refine (reachable_inv glob loc (tstep cf)
             (fun g ls => Inv1 cf g ls /\ forall u lu, nth_error ls u = Some lu -> wfl cf lu) _ _ _ _ HR).
-  - intros g ls t0 c l0 g' l' es [H1 Hn] Hl0 Hs. split; [eapply Inv1_step; eauto|].
+  - apply (lift_step cf (fun g ls => Inv1 cf g ls /\ forall u lu, nth_error ls u = Some lu -> wfl cf lu)).
+    intros g ls t0 c l0 g' l' es [H1 Hn] Hl0 Hs. split; [eapply Inv1_step; eauto|].
     intros u lu Hu. destruct (nth_upd _ _ _ _ _ Hu) as [[-> [-> _]]|[_ Hu']]; [|eauto].
     eapply wfl_step; eauto. eapply I_ok; eauto.
   - split; [apply Inv1_init|]. intros u lu Hu. unfold init in Hu. cbn [thr] in Hu.
@@ -1650,7 +1657,39 @@ Proof.
   all: try (left; apply exec_mi_mutex).
 Qed.
 
-Lemma R_step cf progs s tc : R cf progs s -> R cf progs (step glob loc (tstep0 cf) s tc).
+(* the invisible accesses of the plain kind (settle) are steps of operation bodies: they do not touch the mutex *)
+Lemma tstep0_run_glob cf t c g pr sl fr i rest ph r ok g' l' es :
+  tstep0 cf t c g (Loc pr (Run fr (i :: rest) ph r ok) sl) = Some (g', l', es) ->
+  g' = m_g (exec_mi cf t i ph r ok g).
+Proof.
+  unfold tstep0. cbn [at_ slots prog]. intros Hs.
+  destruct (m_thrown _); [destruct fr; inversion Hs; reflexivity|].
+  destruct (negb (m_done _)); [inversion Hs; reflexivity|].
+  destruct (match m_rest _ with Some c' => c' | None => rest end); destruct fr; inversion Hs; reflexivity.
+Qed.
+Lemma silent_pc_run p : silent_pc p = true -> exists fr code ph r ok, p = Run fr code ph r ok.
+Proof. destruct p; try discriminate. intros _. repeat eexists. Qed.
+Lemma settle_mutex cf t fuel : forall g l es g2 l2 es2, settle cf t fuel g l es = (g2, l2, es2) ->
+  owner g2 = owner g /\ sharers g2 = sharers g.
+Proof.
+  induction fuel as [|f IH]; intros g l es g2 l2 es2 Hs; cbn [settle] in Hs; [inversion Hs; auto|].
+  destruct (silent_pc (at_ l)) eqn:Es; [|inversion Hs; auto].
+  destruct (tstep0 cf t 0 g l) as [[[g' l'] es']|] eqn:E; [|inversion Hs; auto].
+  destruct (IH _ _ _ _ _ _ Hs) as [A B]. rewrite A, B.
+  destruct (silent_pc_run _ Es) as [fr [code [ph [r [ok Hp]]]]]. destruct l as [pr p sl]. cbn [at_] in Hp. subst p.
+  destruct code as [|i rest]; [discriminate|].
+  rewrite (tstep0_run_glob _ _ _ _ _ _ _ _ _ _ _ _ _ _ _ E). apply exec_mi_mutex.
+Qed.
+Lemma owner_tstep cf t c g l g' l' es : tstep cf t c g l = Some (g', l', es) ->
+  owner g' = owner g \/ owner g' = None \/ (owner g' = Some t /\ free_x g = true).
+Proof.
+  intros Hs. destruct (tstep_inv _ _ _ _ _ _ Hs) as [g1 [l1 [es1 [E0 [Hn Hp]]]]].
+  pose proof (owner_step _ _ _ _ _ _ _ _ E0) as Ho.
+  destruct (plain cf) eqn:Ep; [|rewrite (Hn (or_introl eq_refl)) in *; injection (Hn (or_introl eq_refl)); intros; subst; exact Ho].
+  specialize (Hp eq_refl). symmetry in Hp. destruct (settle_mutex _ _ _ _ _ _ _ _ _ Hp) as [A _]. rewrite A. exact Ho.
+Qed.
+
+Lemma R_step cf progs s tc : R cf progs s -> R cf progs (step glob loc (tstep cf) s tc).
 Proof. apply reachable_step. Qed.
 
 (* t holds the mutex in shared mode: a live shared handle, or inside read / ordered load, on a shared-capable mutex *)
@@ -1684,7 +1723,7 @@ Qed.
 (* ... and no modification can start: whatever step is taken, nobody holds the mutex exclusively afterwards
    and no modification window is open (the steps that would take the exclusive lock are disabled) *)
 Lemma no_mod_starts_l cf progs s t u c : R cf progs s -> holds_shared cf s t ->
-  let s' := step glob loc (tstep0 cf) s (u, c) in
+  let s' := step glob loc (tstep cf) s (u, c) in
   (forall v, lx cf (locof (thr s') v) = 0%nat) /\
   (safe cf (gl s') -> forall v, wropen (at_ (locof (thr s') v)) = false).
 Proof.
@@ -1693,8 +1732,8 @@ Proof.
   destruct (shared_no_owner _ _ _ _ H1 Ht) as [Ho Hf].
   assert (Ho' : owner (gl s') = None).
   { unfold s', step, sys_step. destruct (nth_error (thr s) u) as [l|] eqn:El; [|exact Ho].
-    destruct (tstep0 cf u c (gl s) l) as [[[g' l'] es]|] eqn:Es; [|exact Ho]. cbn.
-    destruct (owner_step _ _ _ _ _ _ _ _ Es) as [E|[E|[_ E]]]; congruence. }
+    destruct (tstep cf u c (gl s) l) as [[[g' l'] es]|] eqn:Es; [|exact Ho]. cbn.
+    destruct (owner_tstep _ _ _ _ _ _ _ _ Es) as [E|[E|[_ E]]]; congruence. }
   assert (HX : forall v, lx cf (locof (thr s') v) = 0%nat).
   { intros v. rewrite (I_x _ _ _ H1'). unfold own1. rewrite Ho'. reflexivity. }
   split; [exact HX|]. intros Hs v.
@@ -1705,9 +1744,9 @@ Proof.
 Qed.
 (* the blocking exclusive acquisitions themselves are disabled *)
 Lemma writer_blocked_l cf progs s t u c l : R cf progs s -> holds_shared cf s t ->
-  nth_error (thr s) u = Some l -> blocked_on cf l false -> tstep0 cf u c (gl s) l = None.
+  nth_error (thr s) u = Some l -> blocked_on cf l false -> tstep cf u c (gl s) l = None.
 Proof.
-  intros HR Ht Hl Hb. destruct (R_inv _ _ _ HR) as [H1 _]. destruct (shared_no_owner _ _ _ _ H1 Ht) as [_ Hf].
+  intros HR Ht Hl Hb. apply tstep_none. destruct (R_inv _ _ _ HR) as [H1 _]. destruct (shared_no_owner _ _ _ _ H1 Ht) as [_ Hf].
   destruct l as [pr p sl]. unfold tstep0, blocked_on in *. cbn [at_ slots prog] in *.
   destruct Hb as [[h [sh [-> Em]]]|[o [gsh [code [-> [Ew Em]]]]]].
   - rewrite <- Em. unfold acquire, obtainable. rewrite Hf. reflexivity.
@@ -1847,15 +1886,15 @@ Qed.
    in no mode; if its guard was exclusive the mutex has no exclusive owner *)
 Lemma wr_exn_usable cf progs s t c l g' l' es :
   R cf progs s -> nth_error (thr s) t = Some l -> tstep0 cf t c (gl s) l = Some (g', l', es) -> In catch_ev es ->
-  R cf progs (step glob loc (tstep0 cf) s (t, c)) /\
+  R cf progs (step glob loc (tstep cf) s (t, c)) /\
   (~ holds_in_slots cf l -> owner g' <> Some t /\ ~ In t (sharers g')) /\
   (forall o gid rv, at_ l = GRel o gid rv true -> gmode cf o = false -> owner g' = None).
 Proof.
   intros HR Hl Hs Hc. pose proof (R_step cf progs s (t, c) HR) as HR'.
   split; [exact HR'|].
-  destruct (wr_exn_no_lock_left _ _ _ _ _ _ _ _ _ HR Hl Hs Hc) as [_ [_ [Ex [Es _]]]].
-  assert (Hst : step glob loc (tstep0 cf) s (t, c) = Sys g' (upd (thr s) t l')).
-  { unfold step, sys_step. rewrite Hl, Hs. reflexivity. }
+  destruct (wr_exn_no_lock_left _ _ _ _ _ _ _ _ _ HR Hl Hs Hc) as [Hidle [_ [Ex [Es _]]]].
+  assert (Hst : step glob loc (tstep cf) s (t, c) = Sys g' (upd (thr s) t l')).
+  { unfold step, sys_step. rewrite Hl, (tstep_eq0 _ _ _ _ _ _ _ _ Hs) by (rewrite Hidle; reflexivity). reflexivity. }
   rewrite Hst in HR'. destruct (R_inv1 _ _ _ HR') as [_ IX IS _]. cbn [gl thr] in *.
   specialize (IX t). specialize (IS t). rewrite (locof_upd _ _ _ _ _ Hl), Nat.eqb_refl in IX, IS.
   split.
@@ -1879,11 +1918,12 @@ Fixpoint calls_first (code : list mi) : bool :=
   | i :: r => (if writes_obj i then negb (existsb is_call r) else true) && calls_first r
   end.
 Lemma wr_exn_calls_first cf o gsh code : wop_code cf o = Some (gsh, code) ->
-  calls_first code = true /\ (forall e d ok, o = Cas e d -> calls_first (cas_branch ok d) = true).
+  calls_first code = true /\
+  (forall e d ok, o = Cas e d -> calls_first (cas_branch ok d) = true /\ calls_first (cas_branch_plain ok d) = true).
 Proof.
   unfold wop_code. intros H. split.
-  - destruct o; try discriminate; destruct (flav cf); cbn in H; inversion H; reflexivity.
-  - intros e d ok _. destruct ok; reflexivity.
+  - destruct o; try discriminate; destruct (flav cf); destruct (plain cf); cbn in H; inversion H; reflexivity.
+  - intros e d ok _. destruct ok; split; reflexivity.
 Qed.
 (* with the exception pending the payload is not half-written and nobody is inside a modification *)
 Lemma wr_exn_state cf progs s t l o gid rv exn : R cf progs s -> safe cf (gl s) ->
@@ -1908,3 +1948,59 @@ Proof.
     destruct (wop_code cf o) as [[gsh code]|] eqn:Ew; [|congruence].
     unfold release. eexists _, _, _. split; [reflexivity|]. destruct (gsh && shcap cf); cbn; auto.
 Qed.
+
+(* ================================================================== *)
+(* The step-level facts for both payload kinds (tstep)                   *)
+(* ================================================================== *)
+Lemma try_null_iff_t cf t c g l g' l' es h am sh :
+  at_ l = HAcq h am sh -> tstep cf t c g l = Some (g', l', es) ->
+  exists new, hsh new = sh /\ hnn new = hown new /\ hown new = obtainable (sh && shcap cf) g /\
+    ((at_ l' = HRelOld h new /\ slots l' = slots l) \/
+     (at_ l' = Idle /\ slots l' = upd (slots l) h (Some new) /\ In (ret_ev (b2z (hnn new))) es)).
+Proof.
+  intros Hp Hs. destruct (tstep_inv _ _ _ _ _ _ Hs) as [g1 [l1 [es1 [E0 [Hn _]]]]].
+  destruct (try_null_iff_l _ _ _ _ _ _ _ _ _ _ _ Hp E0) as [new [A [B [C D]]]].
+  assert (silent_pc (at_ l1) = false) as Hsil by (destruct D as [[-> _]|[-> _]]; reflexivity).
+  injection (Hn (or_intror Hsil)) as -> -> ->. exists new. auto.
+Qed.
+Lemma timed_never_stuck_t cf t g pr sl h am sh : am <> ABlock ->
+  exists r, tstep cf t 2 g (Loc pr (HAcq h am sh) sl) = Some r.
+Proof. intros H. destruct (timed_never_stuck_l cf t g pr sl h am sh H) as [r Hr]. eapply tstep_some; eauto. Qed.
+Lemma try_always_enabled_t cf t c g pr sl h sh :
+  exists r, tstep cf t c g (Loc pr (HAcq h ATry sh) sl) = Some r.
+Proof. destruct (try_always_enabled_l cf t c g pr sl h sh) as [r Hr]. eapply tstep_some; eauto. Qed.
+Lemma unlock_nulls_t cf t c g l g' l' es h :
+  (at_ l = Idle /\ exists pr, prog l = Unlock h :: pr) \/ at_ l = HRel (RUnlock h) ->
+  tstep cf t c g l = Some (g', l', es) -> In (ret_ev 0) es ->
+  exists x, slot (slots l') h = Some x /\ hnn x = false /\ hown x = false.
+Proof.
+  intros Hp Hs Hr. destruct (tstep_inv _ _ _ _ _ _ Hs) as [g1 [l1 [es1 [E0 [Hn _]]]]].
+  assert (silent_pc (at_ l1) = false) as Hsil.
+  { destruct l as [pr p sl]. cbn [at_ prog] in Hp. destruct Hp as [[-> [pr' ->]]| ->];
+      unfold tstep0 in E0; cbn [at_ slots prog rel_slot] in E0.
+    - destruct (slot sl h) as [x|]; [destruct (hown x)|]; inversion E0; reflexivity.
+    - destruct (slot sl h) as [x|]; [|discriminate]. destruct (release _ _ _ _). inversion E0; reflexivity. }
+  injection (Hn (or_intror Hsil)) as -> -> ->. eapply unlock_nulls_l; eauto.
+Qed.
+Lemma disabled_acquire_t cf t c g pr sl o h am sh : locking cf = false -> noown sl ->
+  acq_of cf o = Some (h, am, sh) -> (h < NSLOTS)%nat ->
+  tstep cf t c g (Loc (o :: pr) Idle sl) =
+  Some (g, Loc pr Idle (upd sl h (Some (H sh true false 0))), [inv_ev o; ret_ev 1]).
+Proof.
+  intros H1 H2 H3 H4. apply tstep_eq0; [eapply disabled_acquire_l; eassumption|reflexivity].
+Qed.
+Lemma readers_share_handle_t cf t c g pr sl h am : shcap cf = true -> owner g = None ->
+  exists r, tstep cf t c g (Loc pr (HAcq h am true) sl) = Some r.
+Proof. intros A B. destruct (readers_share_handle_l cf t c g pr sl h am A B) as [r Hr]. eapply tstep_some; eauto. Qed.
+Lemma readers_share_guard_t cf t c g pr sl o code : shcap cf = true -> owner g = None ->
+  wop_code cf o = Some (true, code) -> exists r, tstep cf t c g (Loc pr (GAcq o) sl) = Some r.
+Proof. intros A B C. destruct (readers_share_guard_l cf t c g pr sl o code A B C) as [r Hr]. eapply tstep_some; eauto. Qed.
+(* the guard's destructor and the throwing call leave the thread at a pc that is not inside invisible accesses *)
+Lemma wr_throw_step_t cf t c g pr sl fr fid snap rest ph r ok :
+  existsb (Nat.eqb (calls g)) (throws cf) = true ->
+  tstep cf t c g (Loc pr (Run fr (MCall fid snap :: rest) ph r ok) sl) =
+  Some (set_calls g (S (calls g)),
+        Loc pr (match fr with FGuard o gid => GRel o gid 0 true | FUse _ => Idle end) sl,
+        [E K_CALL 0 fid; E K_THROW 0 (Z.of_nat (calls g))] ++
+        match fr with FGuard _ _ => [] | FUse _ => [catch_ev] end).
+Proof. intros H. apply tstep_eq0; [apply wr_throw_step; exact H|destruct fr; reflexivity]. Qed.
